@@ -380,6 +380,8 @@ def lib_adapter(which, config):
         def tr(st):
             if st["k"] == "rst":
                 return ("drive", {} if config["w_reset_less"] else {"write.rst": st["l"]})
+            if st["k"] == "rrst":
+                return ("drive", {"read.rst": st["l"]})
             return ("set", st["v"]) if st["k"] == "set" else ("drive", {k + ".clk": v for k, v in st["l"].items()})
     elif which == "C18":
         # I/O buffers on composed simulation ports: per-bit inversion, one register stage per direction, tristate loop-back
